@@ -563,6 +563,145 @@ theorem walkMessage_parse_offset (msg : Bytes) (m : Message) (o : Nat)
     (hw : walkMessage msg [] = .ok (its, o')) : o' = o :=
   walkMessage_unpackMessage_agree msg [] its o' m o hw h
 
+/-! ## What a successful Skip guarantees -/
+
+/-- where `Name.unpack` succeeds, `skipName` succeeds too, at the same offset (it validates less) -/
+theorem unpackLoop_skipLoop (msg : Bytes) : ∀ (f2 f1 cur : Nat) (name : Bytes) (newOff : Nat) (n : Bytes) (o : Nat),
+    unpackLoop msg f2 cur 0 name newOff = .ok (n, o) → msg.length - cur < f1 →
+    skipLoop msg f1 cur = .ok o := by
+  intro f2
+  induction f2 with
+  | zero => intro f1 cur name newOff n o h; simp [unpackLoop] at h
+  | succ f2 ih =>
+    intro f1 cur name newOff n o h hf
+    cases f1 with
+    | zero => omega
+    | succ f1 =>
+      unfold unpackLoop at h
+      unfold skipLoop
+      split at h
+      · simp at h
+      · rename_i c rest hdrop
+        have hlen := drop_cons_lt hdrop
+        try simp only [hdrop]
+        split at h
+        · rename_i hc
+          simp only [hc, if_true]
+          split at h
+          · rename_i hc0
+            simp [hc0] at h ⊢
+            exact h.2
+          · rename_i hc0
+            simp only [hc0, if_false]
+            split at h
+            · simp at h
+            · rename_i hr
+              simp only [hr, if_false]
+              split at h
+              · simp at h
+              · split at h
+                · simp at h
+                · exact ih _ _ _ _ _ _ h (by omega)
+        · rename_i hc
+          simp only [hc, if_false]
+          split at h
+          · rename_i hc3
+            simp only [hc3, if_true]
+            split at h
+            · simp at h
+            · split at h
+              · simp at h
+              · have := unpackLoop_newOff msg _ _ _ _ _ _ _ (by omega) h
+                simp at this
+                simp [this]
+          · simp at h
+
+theorem unpackName_skipName (msg : Bytes) (off : Nat) (n : Bytes) (o : Nat)
+    (h : unpackName msg off = .ok (n, o)) : skipName msg off = .ok o :=
+  unpackLoop_skipLoop msg _ _ _ _ _ _ _ h (by omega)
+
+theorem u16At_skip16 {msg : Bytes} {off v o : Nat} (h : u16At msg off = .ok (v, o)) :
+    skip16 msg off = .ok o := by
+  have hb := NetVerif.Proofs.DnsTotal.u16At_bound h
+  unfold skip16
+  have : ¬ off + 2 > msg.length := by omega
+  simp [this, hb.1]
+
+theorem u32At_skip32 {msg : Bytes} {off v o : Nat} (h : u32At msg off = .ok (v, o)) :
+    skip32 msg off = .ok o := by
+  unfold u32At at h
+  split at h
+  · rename_i a b c d rest hd
+    have := congrArg List.length hd
+    simp at this h
+    unfold skip32
+    have hle : ¬ off + 4 > msg.length := by omega
+    simp [hle]; omega
+  · simp at h
+
+/-- **A successful skip stays inside the message** (both skip paths check RDLENGTH against the
+bytes that remain). -/
+theorem skipResource_in_bounds (msg : Bytes) (off o : Nat) (h : skipResource msg off = .ok o) :
+    o ≤ msg.length := by
+  unfold skipResource at h
+  split at h
+  · simp at h
+  · split at h
+    · simp at h
+    · split at h
+      · simp at h
+      · split at h
+        · simp at h
+        · split at h
+          · simp at h
+          · split at h
+            · simp at h
+            · simp at h; omega
+
+/-- **`XHeader()` followed by `SkipX()` may succeed only if the plain `SkipX()` succeeds on the
+same record, and then both end at the same offset, inside the message.** -/
+theorem headerSkip_implies_skip (msg : Bytes) (off : Nat) (it : Item) (o : Nat)
+    (h : walkResource msg off .headerSkip = .ok (it, o)) :
+    skipResource msg off = .ok o ∧ o ≤ msg.length := by
+  simp only [walkResource] at h
+  split at h
+  · simp at h
+  · rename_i hd oh hh
+    split at h
+    · rename_i o' hs
+      simp at h
+      rcases h with ⟨_, rfl⟩
+      unfold skipAfterHeader at hs
+      split at hs
+      · simp at hs
+      · rename_i hbound
+        simp at hs
+        subst hs
+        unfold unpackRHeader at hh
+        split at hh
+        · simp at hh
+        · rename_i n o1 h1
+          split at hh
+          · simp at hh
+          · rename_i t o2 h2
+            split at hh
+            · simp at hh
+            · rename_i c o3 h3
+              split at hh
+              · simp at hh
+              · rename_i ttl o4 h4
+                split at hh
+                · simp at hh
+                · rename_i len o5 h5
+                  simp at hh
+                  rcases hh with ⟨rfl, rfl⟩
+                  refine ⟨?_, by omega⟩
+                  simp only [skipResource, unpackName_skipName msg off n o1 h1, u16At_skip16 h2,
+                    u16At_skip16 h3, u32At_skip32 h4, h5]
+                  simp at hbound ⊢
+                  omega
+    · simp at h
+
 /-! ## Every loop of the reader terminates -/
 
 /-- **`Message.Unpack` terminates on every input**: none of the fuelled loops of the model
